@@ -71,8 +71,18 @@ type c10Step struct {
 	K    int      `json:"k"`
 	R    c10R     `json:"r"`
 	P    c10P     `json:"p"`
+	Xp   bool     `json:"xp"` // the call (or its observation) re-roots the DAG outside Sync
 	Alts []c10Alt `json:"alts"`
 	Amb  bool     `json:"amb"`
+	Fo   struct { // follow track: outcome with the unrepaired open deviations in force
+		On   bool     `json:"on"`
+		R    c10R     `json:"r"`
+		Wild bool     `json:"wild"`
+		P    c10P     `json:"p"`
+		Alts []c10Alt `json:"alts"`
+		Amb  bool     `json:"amb"`
+		Devs []string `json:"devs"`
+	} `json:"fo"`
 }
 type c10Beh struct {
 	Init struct {
@@ -391,66 +401,99 @@ func c10FmtP(p c10P) string {
 	return fmt.Sprintf("{size=%d cur=%d view=%v wview=%v}", p.Size, p.Cur, p.View, p.Wview)
 }
 
+// c10Found is one disagreement with the file model that is exactly an as-built alternative.
+type c10Found struct {
+	step int
+	what string
+	devs []string
+}
+
+const c10IdentErr = "digest too large: identity digest"
+
 // c10RunOne replays one behaviour on one configuration.
-// Returns (step, what, devs): step == 0 => everything matched the file model.
-func c10RunOne(b *c10Beh, c c10Cfg) (int, string, []string) {
+// Returns the explained deviations met on the way and, if step != 0, the unexplained disagreement.
+func c10RunOne(b *c10Beh, c c10Cfg) (found []c10Found, step int, what string) {
 	content := make([]byte, b.Init.Size)
 	for i := range content {
 		content[i] = byte(i + 1)
 	}
 	dm, ds, err := c10Start(content, c)
 	if err != nil {
-		return -1, "setup: " + err.Error(), nil
+		return nil, -1, "setup: " + err.Error()
 	}
 	// (an empty file is a childless node in every layout; with no inline bytes its kind is immaterial)
 	if k := c10RootKind(dm.curNode); b.Init.Size > 0 && (k == "pb") != (b.Init.Root == "pb") {
-		return -1, fmt.Sprintf("setup: root kind %s but behaviour wants %s", k, b.Init.Root), nil
+		return nil, -1, fmt.Sprintf("setup: root kind %s but behaviour wants %s", k, b.Init.Root)
 	}
+	follow := false // false: expectations of the file model; true: follow track
 	for i := range b.Steps {
 		st := &b.Steps[i]
-		if st.Amb {
-			return 0, "", nil
+		expR, expP, alts, amb := st.R, st.P, st.Alts, st.Amb
+		if follow {
+			if st.Fo.Wild || st.Fo.P.Wild {
+				return found, 0, ""
+			}
+			expR, expP, alts, amb = st.Fo.R, st.Fo.P, st.Fo.Alts, st.Fo.Amb
+		}
+		if amb {
+			return found, 0, ""
 		}
 		real := c10Do(dm, ds, st, c.CtxRead)
-		sameR := c10SameR(st.Op, real, st.R)
+		sameR := c10SameR(st.Op, real, expR)
 		var probe c10P
 		probed := false
-		if sameR {
-			probe = c10Probe(dm, ds)
-			probed = true
-			if c10SameP(probe, st.P) {
-				continue
-			}
-		}
-		// disagreement with the file model: is it exactly an as-built alternative?
-		for _, a := range st.Alts {
-			if !c10SameR(st.Op, real, a.R) {
-				continue
-			}
-			if a.Wild || a.P.Wild {
-				return i + 1, c10Explain(st, real, probe, probed), a.Devs
-			}
+		doProbe := func() {
 			if !probed {
 				probe = c10Probe(dm, ds)
 				probed = true
 			}
-			if c10SameP(probe, a.P) {
-				return i + 1, c10Explain(st, real, probe, probed), a.Devs
+		}
+		if sameR {
+			doProbe()
+			if c10SameP(probe, expP) {
+				continue
 			}
 		}
-		if !probed {
-			probe = c10Probe(dm, ds)
-			probed = true
+		explain := func() string { return c10Explain(st, real, expR, probe, expP, probed) }
+		// 1. the unrepaired deviations (follow track): exactly modelled, checking continues there
+		if !follow && st.Fo.On && !st.Fo.Wild && !st.Fo.P.Wild && !st.Fo.Amb && c10SameR(st.Op, real, st.Fo.R) {
+			doProbe()
+			if c10SameP(probe, st.Fo.P) {
+				found = append(found, c10Found{i + 1, explain(), st.Fo.Devs})
+				follow = true
+				continue
+			}
 		}
-		return i + 1, c10Explain(st, real, probe, probed), nil
+		// 2. identity-hash prefix: re-rooting outside Sync adds an oversized identity block
+		if c.Ident && st.Xp {
+			doProbe()
+			if strings.Contains(real.ErrStr, c10IdentErr) || (sameR && strings.Contains(probe.Fail, c10IdentErr)) {
+				return append(found, c10Found{i + 1, explain(), []string{"Dev_C10_IdentityOverflow"}}), 0, ""
+			}
+		}
+		// 3. the other open deviations: exact alternative of this call, checking stops
+		for _, a := range alts {
+			if !c10SameR(st.Op, real, a.R) {
+				continue
+			}
+			if a.Wild || a.P.Wild {
+				return append(found, c10Found{i + 1, explain(), a.Devs}), 0, ""
+			}
+			doProbe()
+			if c10SameP(probe, a.P) {
+				return append(found, c10Found{i + 1, explain(), a.Devs}), 0, ""
+			}
+		}
+		doProbe()
+		return found, i + 1, explain()
 	}
-	return 0, "", nil
+	return found, 0, ""
 }
 
-func c10Explain(st *c10Step, real c10R, probe c10P, probed bool) string {
-	s := fmt.Sprintf("%s returned %s, model %s", c10Desc(st), c10FmtR(real), c10FmtR(st.R))
+func c10Explain(st *c10Step, real, expR c10R, probe, expP c10P, probed bool) string {
+	s := fmt.Sprintf("%s returned %s, model %s", c10Desc(st), c10FmtR(real), c10FmtR(expR))
 	if probed {
-		s += fmt.Sprintf("; observed %s, model %s", c10FmtP(probe), c10FmtP(st.P))
+		s += fmt.Sprintf("; observed %s, model %s", c10FmtP(probe), c10FmtP(expP))
 	}
 	return s
 }
@@ -554,26 +597,24 @@ func c10Replay(t *testing.T) {
 			var recs []M
 			seenDev := map[string]bool{}
 			for _, c := range pick {
-				step, what, devs := c10RunOne(&b, c)
+				found, step, what := c10RunOne(&b, c)
 				mu.Lock()
 				cfgSeen[c.String()] = true
 				mu.Unlock()
-				if step == 0 {
-					continue
+				for _, fd := range found {
+					sort.Strings(fd.devs)
+					key := strings.Join(fd.devs, "+")
+					if seenDev[key] {
+						continue
+					}
+					seenDev[key] = true
+					for _, dv := range fd.devs {
+						recs = append(recs, M{"i": i, "ok": false, "step": fd.step, "what": "[" + c.String() + "] " + fd.what, "dev": dv, "devs": fd.devs})
+					}
 				}
-				what = "[" + c.String() + "] " + what
-				if len(devs) == 0 {
-					recs = append(recs, M{"i": i, "ok": false, "step": step, "what": what})
+				if step != 0 {
+					recs = append(recs, M{"i": i, "ok": false, "step": step, "what": "[" + c.String() + "] " + what})
 					break
-				}
-				sort.Strings(devs)
-				key := strings.Join(devs, "+")
-				if seenDev[key] {
-					continue
-				}
-				seenDev[key] = true
-				for _, dv := range devs {
-					recs = append(recs, M{"i": i, "ok": false, "step": step, "what": what, "dev": dv, "devs": devs})
 				}
 			}
 			if len(recs) == 0 {
